@@ -79,7 +79,7 @@ def main(tier):
         regcheck.model_check(rep, bd, "registrations + buildability, depth 3, up to two optional AddCategory parameters", 3, "c14", "mid")
         regcheck.emit_and_replay(rep, bd, "all transitions to depth 2", 2, "c14", "small", stats=stats)
         regcheck.emit_and_replay(rep, bd, "systematic sample of the transitions at depth 3", 3, "c14", "small", every=12,
-                                 offset=common.seed() % 12, stats=stats)
+                                 offset=common.sample_seed(), stats=stats)
     table_part(rep, bd, thorough)
     rep.count(evaluations=stats["replayed"], nontrivial=stats["replayed"], traces=stats["replayed"])
     rep.cov["replayed_by_last_op"] = stats["ops"]
